@@ -24,6 +24,8 @@ EXPLANATION = (
 
 def run(prog: Program, rep, tier: str) -> None:
     rep.explanation = EXPLANATION
+    from . import c11 as _c11
+    _c11.iterate_defensive_copy(prog, rep)    # an iterate's point is its own: nothing outside can move it after construction
     L = solve_loop(prog)
     sv, ff = L.fi, L.ff
     N = L.names()
